@@ -220,6 +220,10 @@ def valid_sidecars():
     yield {"defs": {"HED": {"first": "(Definition/Aaa, (Red)), (Definition/Bbb, (Blue))", "second": "(Definition/Ccc, (Green))",
                             "third": "(Definition/Ddd/#, (Label/#)), (Definition/Eee, (Square)), (Definition/Fff)"}},
            "ev": {"HED": {"x": "Def/Aaa, (Def/Ccc, Def/Ddd/v)", "y": "Def/Eee"}}}
+    # a referenced column whose name has a hyphen / an underscore and digits
+    for name in ("resp-time", "resp_time2", "r-2-d2"):
+        yield {name: {"HED": "Label/#"}, "ev": {"HED": {"x": "(Red, {%s})" % name, "y": "Blue"}}}
+        yield {name: {"HED": {"a": "Green", "b": "Square"}}, "ev": {"HED": {"x": "{%s}, Red" % name}}}
     # a referenced column whose name has capitals and whose entries are complete only where they are spliced in
     for name in ("Phase", "trial_Phase2", "PHASE", "phase"):
         yield {"defs": defs, name: {"HED": {"start": "Onset", "end": "Offset"}},
@@ -311,6 +315,35 @@ HIST_OPS = ["validate", "validate-errors-only", "drop-hed:val", "drop-hed:other"
             "ref-to-other:cat", "ref-to-ign:cat", "restore"]
 
 
+def shared_definitions_check(env, rec):
+    """E2: one list of extra definition dictionaries handed to several validations (of one sidecar, of two sidecars): every
+    validation gives what it gives with a list of its own, and the list is as it was."""
+    from hed.models.definition_dict import DefinitionDict
+    docs = [{"defs": {"HED": {"d1": "(Definition/Dd, (Red))", "d2": "(Definition/Dv/#, (Label/#))"}},
+             "ev": {"HED": {"x": "Def/Dd, Def/Ex", "y": "Def/Dv/abc"}}},
+            {"ev": {"HED": {"x": "Def/Ex, Blue"}}, "val": {"HED": "Label/#, Def/Ex"}}]
+
+    def extra():
+        return [DefinitionDict(["(Definition/Ex, (Green))"], env.schema)]
+
+    def codes(doc, lst):
+        return sorted((i["code"], i["severity"]) for i in env.Sidecar(io.StringIO(json.dumps(doc))).validate(
+            env.schema, extra_def_dicts=lst))
+    fresh = [codes(d, extra()) for d in docs]
+    for seq in itertools.product(range(len(docs)), repeat=3):
+        shared = extra()
+        rec.n("evaluations")
+        rec.n("transitions", 3)
+        rec.n("distinct_nontrivial")
+        for step, k in enumerate(seq):
+            got = codes(docs[k], shared)
+            if got != fresh[k] or len(shared) != 1:
+                rec.violation("C08:shared-definition-list:validation-depends-on-earlier-validations", sequence=list(seq), step=step,
+                              fresh=fresh[k], got=got, list_length=len(shared))
+                break
+    rec.outcome("shared-definitions")
+
+
 def history_check(env, rec, depth):
     """E2: one Sidecar object is validated, edited in place (same top-level keys) and validated again in every order up to
     depth: every validation equals that of a fresh Sidecar built from the current document."""
@@ -360,6 +393,8 @@ def worker(rec, shard, nshards, seed, thorough):
     env = Env()
     if shard == 0:
         history_check(env, rec, 4 if thorough else 3)
+    if shard == 1 % nshards:
+        shared_definitions_check(env, rec)
     docs = [("doc", d, None, False) for d in documents()]
     docs += [("doc", d, None, False) for d in brace_documents()]
     docs += [("replace", d, None, False) for d in replacements()]
